@@ -160,6 +160,8 @@ class Gen:
             second = " for %s in %s" % (v2, it2)
         body = self.bool_(max(0, d - 2))
         cond = (" if %s" % self.bool_(0)) if self.rng.random() < 0.3 else ""
+        if cond and self.rng.random() < 0.4:
+            cond += " if %s" % self.bool_(0)
         if second:
             self.loopvars.pop()
         self.loopvars.pop()
@@ -200,6 +202,14 @@ SPECIAL = [
     (None, "len({**d, 'z': 1}) > 10", {"d": {"a": 1}}),
     (None, "[x for x in xs if x > 0] == [99]", {"xs": [1, -1, 2]}),
     (None, "[x + y for x in xs] == [99]", {"xs": [1, 2]}),
+    (None, "{**d, 'a': x}['a'] > 100", {"d": {"a": 50, "b": 1}, "x": 1}),
+    (None, "list({**d, 'z': y}) == []", {"d": {"a": 1, "b": 2}}),
+    (None, "{'a': x, **d}['a'] > 100", {"d": {"a": 50, "b": 1}, "x": 1}),
+    (None, "sum({**d, 'b': 100, **{'c': y}}.values()) < 0", {"d": {"a": 1, "b": 2, "c": 3}}),
+    (["xs"], "all(10 % e == 1 for e in xs if e != 0 if 10 % e == 0)", {"xs": [0, 5]}),
+    (["items"], "all(e.a > 100 for e in items if e is not None if e.a >= 0)", {"items": "OBJLIST"}),
+    (["items", "x"], "all(e.a > x for e in items if e if e.a if e.a > 0)", {"items": "OBJLIST", "x": 100}),
+    (["xs", "s"], "all(s[e] == 'z' for e in xs if e >= 0 if e < len(s))", {"xs": [-1, 7, 1], "s": "ab"}),
     (None, "[xs[e] + o.a for e in [0, 1]] == [99]", {"xs": [1, 2]}),
     (None, "[o.b[e] * cl + GL + len(xs) for e in [0, 1]] == []", {"ob": [3, 4], "xs": [1]}),
     (None, "[[xs, o.b][e][0] + abs(y) for e in [0, 1] if xs[e] > cl - 100] == [1]", {"xs": [1, 2], "ob": [5]}),
